@@ -22,6 +22,8 @@ def run(c, p):
     else:
         init_in = arr(c["init"], "int64")
         ctr = Counter(keys, init_in, **kw)
+    if p.get("derived"):
+        ctr = np.zeros_like(ctr)          # a counter derived from a counter: same keys and modulus, counts start at zero
     for b in c["batches"]:
         if p.get("aslist") and len(b):
             ctr.count([pyint(x) for x in b])
@@ -64,6 +66,8 @@ def sym(E, p, kf):
     exp = []
     for i, k in enumerate(keys):
         t = init[i] if p["init"] == "array" else init[0]
+        if p.get("derived"):
+            t = 0
         for b in batches:
             for s in b:
                 t = t + z3.If(s == k, 1, 0)
@@ -80,6 +84,8 @@ def conc(case):
     tot = []
     for i, k in enumerate(c["keys"]):
         t = c["init"][i] if p["init"] == "array" else c["init"][0]
+        if p.get("derived"):
+            t = 0
         t += sum(1 for b in c["batches"] for s in b if s == k)
         tot.append(t)
     want = common.ref_array(tot, [len(tot)], "*")
@@ -106,6 +112,9 @@ def jobs(tier, seed):
     out.append(dict(n=6, fixed_keys=[0, 7, 14, 1, 8, 2], kb=16, mods=[7], ns=3, batches=1, init="default"))
     out.append(dict(n=2, fixed_keys=[130, 7], kb=140, mods=[200, 131, None], ns=2, batches=1, init="default", kdtype="uint8"))
     out.append(dict(n=2, fixed_keys=[100, -3], kb=110, mods=[120, None], ns=2, batches=1, init="array", kdtype="int8"))
+    out.append(dict(n=3, fixed_keys=[1, 5, 9], kb=12, mods=[11, 4, None], ns=2, batches=1, init="array", derived=True))
+    out.append(dict(n=2, modmax=3, ns=2, batches=1, init="default", derived=True))
+    out.append(dict(n=2, fixed_keys=[18446744073709551615, 5], kb=8, mods=[3, None], ns=2, batches=1, init="default", kdtype="uint64"))          # a key above 2^63, samples around zero
     if not q:
         out.append(dict(n=3, modmax=2, ns=2, batches=1, init="default"))
         out.append(dict(n=2, modmax=2, ns=3, batches=1, init="array"))
